@@ -16,6 +16,7 @@ from dask.dataframe.core import _concat, split_evenly
 PROPERTY = "C44"
 LEVEL = "other"
 BUDGET = {"quick": 150, "thorough": 1500}
+CHUNK_PATHS = 40
 EXPLANATION = (
     "Bounded symbolic execution of the real RepartitionDivisions._layer (called on a duck-typed expression) with the old and "
     "new division vectors as sorted tuples of symbolic integers (no bound on the values, only on the tuple lengths) and a "
@@ -36,7 +37,7 @@ ASSUMPTIONS = [
 ]
 STUBS = ["stub pyarrow package for import", "duck-typed `self` (SimpleNamespace with frame.divisions/_name/npartitions) for the _layer methods"]
 ENUM = ["lengths of the division vectors", "n_old/n_new in RepartitionToFewer (float ratio concretises them)", "L and k of split_evenly (np.linspace)", "all inputs of the numeric more-partitions path (np.interp in float64): base value from a list incl. |v| > 2**53 and datetime64[ns] stamps that float64 cannot hold, gaps, npartitions"]
-OUTSIDE = ["partition_size (memory measurement)", "freq"]
+OUTSIDE = ["partition_size beyond the solver-enumerated small frames (memory measurement: no symbolic claim)", "freq"]
 BOUNDS = {
     "quick": dict(old_divisions="2..4 symbolic ints, strictly increasing except the last two may be equal", new_divisions="2..4", values="unbounded ints",
                   force="both", tofewer="n_old in [2,10]", tomore="n_old in [1,3], n_new <= 8"),
@@ -357,6 +358,43 @@ def mk_interp(nold_max, nnew_max):
     return Obligation(f"more_partitions_numeric[nold<={nold_max},nnew<={nnew_max}]", setup, run)
 
 
+def mk_partition_size(maxparts, maxrows):
+    """repartition(partition_size=...) keeps exactly the same rows in the same order (memory measurement and split arithmetic go through
+    pandas / NumPy: partition sizes, target size and index kind are solver-enumerated)"""
+    def setup(e):
+        sizes = [e.int(f"rows{i}", 0, maxrows) for i in range(1 + e.choice("nparts", maxparts))]
+        e.assume(lambda: sizes[0] + sum(sizes[1:]) >= 1)
+        target = e.pick("partition_size", (40, 100, 400, 10 ** 6))
+        known = e.flag("known_divisions")
+        return sizes, target, known
+
+    def run(e, sizes, target, known):
+        import dask
+        sizes = [operator.index(x) for x in sizes]
+        n = sum(sizes)
+        df = pd.DataFrame({"x": range(n), "y": [float(i) for i in range(n)]}, index=pd.Index(range(100, 100 + n), dtype="int64"))
+        parts, pos = [], 0
+        for sz in sizes:
+            parts.append(df.iloc[pos:pos + sz])
+            pos += sz
+        if known and all(sizes):
+            divs = [p.index[0] for p in parts] + [parts[-1].index[-1]]
+            ddf = dd.from_delayed([dask.delayed(p) for p in parts], meta=df.iloc[:0], divisions=divs, verify_meta=False)
+        else:
+            ddf = dd.from_delayed([dask.delayed(p) for p in parts], meta=df.iloc[:0], verify_meta=False)
+        out = ddf.repartition(partition_size=target)
+        got = out.compute(scheduler="sync")
+        e.check(got.equals(df), f"repartition(partition_size={target}) changed the rows or their order: partition sizes {sizes}, got index {got.index.tolist()[:12]}")
+        frames = dask.compute(*out.to_delayed(), scheduler="sync")
+        e.check(sum(len(f) for f in frames) == n, "rows lost or duplicated across the output partitions")
+        if out.known_divisions:
+            d = out.divisions
+            e.check(len(frames) == len(d) - 1 and list(d) == sorted(d), f"divisions {d} inconsistent with {len(frames)} partitions")
+        return [len(f) for f in frames]
+
+    return Obligation(f"partition_size[parts<={maxparts},rows<={maxrows}]", setup, run)
+
+
 def obligations(tier):
     obs = []
     if tier == "quick":
@@ -364,11 +402,11 @@ def obligations(tier):
             for nb in (2, 3, 4):
                 for force in (False, True):
                     obs.append(mk_div(na, nb, force))
-        obs += [mk_fewer(10), mk_more(3, 8), mk_split_evenly(30, 16), mk_interp(2, 5)]
+        obs += [mk_fewer(10), mk_more(3, 8), mk_split_evenly(30, 16), mk_interp(2, 5), mk_partition_size(3, 3)]
     else:
         for na in (2, 3, 4, 5):
             for nb in (2, 3, 4, 5, 6):
                 for force in (False, True):
                     obs.append(mk_div(na, nb, force))
-        obs += [mk_fewer(40), mk_more(5, 14), mk_split_evenly(80, 40), mk_interp(3, 8)]
+        obs += [mk_fewer(40), mk_more(5, 14), mk_split_evenly(80, 40), mk_interp(3, 8), mk_partition_size(4, 6)]
     return obs
